@@ -2,8 +2,10 @@
 import copy
 import warnings
 
-from .. import gen, asmmon
+from .. import gen, asmmon, refmodel
 from . import _embedded
+
+from ..util import rc
 
 PROP = "C10"
 LEVEL = "exploration"
@@ -141,6 +143,28 @@ def execute(mat, ctx):
                 ev.assemble(*(em + [M(gen.make_record(dict(mat["modules"][0], id="twin")))]))
         except Exception:
             pass
+    # the documented way of refusing leftovers: warnings escalated to errors, with a valid module that takes no part in the chain
+    geom = refmodel.geometry(gen.enzyme(mat["enzyme"]))
+    used_ov = set(mat["overhangs"]) | {rc(o) for o in mat["overhangs"]}
+    try:
+        o = [x for x in gen.gen_overhangs(rng, geom[2], 6, forbid=(geom[0], rc(geom[0]))) if x not in used_ov][:2]
+        if len(o) == 2:
+            sp = gen.build_module(rng, geom, o[0], o[1], rng.randint(2, 12), rng.randint(0, 10))
+            sspec = {"id": "spare", "seq": sp["seq"], "refs": [dict(_embedded._ref(1), span=True)],
+                     "features": [{"type": "misc_feature", "parts": [[0, 3, 1]], "quals": {"uid": ["spare.0"], "citation": ["[1]"]}}]}
+            _mon.tag = {"call": "same-wrappers:unused-module-escalated-to-error"}
+            ctx.count("c10_escalated_unused_module_calls")
+            _mon.keep_filters = True
+            try:
+                with _w.catch_warnings():
+                    _w.simplefilter("error")
+                    ev.assemble(*(em + [M(gen.make_record(sspec))]))
+            except Exception:
+                pass
+            finally:
+                _mon.keep_filters = False
+    except RuntimeError:
+        pass
     _mon.tag = {"call": "same-wrappers:corrected-call"}
     ctx.count("c10_corrected_calls_on_same_wrappers")
     try:
